@@ -75,6 +75,10 @@ pub fn build_g1(ctx: &Ctx, per_class: usize, extra: usize) -> TAlpha<RG1> {
     let q = q();
     let mut rng = ctx.rng("c15.g1");
     let mut ts: Vec<Q1> = vec![Q1::zero(), Q1::one(), Q1::one().neg(), Q1::from_u64(2), Q1::from_u64(2).neg(), Q1::new((q - 1u32) >> 1), Q1::new((q + 1u32) >> 1)];
+    for k in [1usize, 2, 5] {
+        ts.push(Q1::new(alpha::pow2(64 * k)));
+        ts.push(Q1::new(alpha::pow2(64 * k) + 1u32));
+    }
     // exceptional roots: t^2 = -1/Z
     let m = sswu_z1().inv().unwrap().neg();
     if let Some(s) = m.sqrt() {
@@ -104,6 +108,13 @@ pub fn build_g2(ctx: &Ctx, per_class: usize, extra: usize) -> TAlpha<RG2> {
     let q = q();
     let mut rng = ctx.rng("c15.g2");
     let mut ts: Vec<Q2> = vec![Q2::zero(), Q2::one(), Q2::one().neg(), q2u(2, 0), q2u(2, 0).neg(), q2u(0, 1), q2u(0, 1).neg(), q2u(1, 1), q2u(0, 2)];
+    // components that are non-zero multiples of 2^64 ... 2^320 (sign rule on limb boundaries)
+    for k in [1usize, 2, 5] {
+        for c1 in [1u64, 2, 3] {
+            ts.push(Q2::new(vec![Q1::new(alpha::pow2(64 * k)), Q1::from_u64(c1)]));
+            ts.push(Q2::new(vec![Q1::from_u64(c1), Q1::new(alpha::pow2(64 * k))]));
+        }
+    }
     for _ in 0..4 {
         ts.push(Q2::new(vec![Q1::new(alpha::rand_below(&mut rng, q)), Q1::zero()]));
         ts.push(Q2::new(vec![Q1::zero(), Q1::new(alpha::rand_below(&mut rng, q))]));
